@@ -170,6 +170,17 @@ func (b *Broker) onPacket(c *Conn, st *bconn, p *Packet) {
 				return
 			}
 		}
+		if p.ClientID == "" && !p.Clean {
+			// "If the Client supplies a zero-byte ClientId with
+			// CleanSession set to 0, the Server MUST respond ... with
+			// return code 0x02 (Identifier rejected) and then close the
+			// Network Connection" [MQTT-3.1.3-8]
+			b.send(c, EncConnack(false, 2))
+			st.closed = true
+			w.Trouble()
+			w.Ev("broker", c.id, "CONNECT with empty client identifier refused")
+			return
+		}
 		sess := b.Sessions[p.ClientID]
 		sp := sess != nil && !p.Clean
 		if sess == nil || p.Clean {
